@@ -117,6 +117,8 @@ func runCheck(id, tier string) int {
 		return checkC12(tier)
 	case "C13":
 		return checkC13(tier)
+	case "C14":
+		return checkC14(tier)
 	case "C06":
 		return checkC06(tier)
 	case "C07":
